@@ -13,23 +13,9 @@ func LangTagConverter(century int, dateFormat DateFormat) func(float64, string, 
 	format := dateFormat
 	// LangTag calculate the 14h and 16h Day in respect to latitude
 	return func(LAT float64, progDat string, anjahr int) (TAG, P1, P2 int) {
-		TAG = 0
-		P1 = 0
-		P2 = 0
-		for ok := true; ok; ok = P1 == 0 {
-			TAG++
-			DL, _, _, _, _, _, _ := CalculateDayLenght(float64(TAG), LAT)
-			if DL > 14 {
-				P1 = TAG
-			}
-		}
-		for ok := true; ok; ok = P2 == 0 {
-			TAG++
-			DL, _, _, _, _, _, _ := CalculateDayLenght(float64(TAG), LAT)
-			if DL > 16 {
-				P2 = TAG // Beginn Große Periode
-			}
-		}
+		P1 = firstDayLongerThan(14, 0, LAT)
+		P2 = firstDayLongerThan(16, P1, LAT) // Beginn Große Periode
+		TAG = P2
 		if progDat[1] != '-' {
 			var progja int
 			if format == DateDEshort || format == DateENshort {
@@ -60,4 +46,21 @@ func LangTagConverter(century int, dateFormat DateFormat) func(float64, string, 
 		}
 		return TAG, P1, P2
 	}
+}
+
+// firstDayLongerThan returns the first of the 365 days after day `from` whose astronomical day
+// length exceeds `hours`. Latitudes where no day is that long (below about 31° for 14 h, below
+// about 49° for 16 h) get the longest day of that year instead of searching without end.
+func firstDayLongerThan(hours float64, from int, LAT float64) int {
+	longest, longestDay := 0.0, from+1
+	for tag := from + 1; tag <= from+365; tag++ {
+		DL, _, _, _, _, _, _ := CalculateDayLenght(float64(tag), LAT)
+		if DL > hours {
+			return tag
+		}
+		if DL > longest {
+			longest, longestDay = DL, tag
+		}
+	}
+	return longestDay
 }
